@@ -35,13 +35,59 @@ def neutron_world(ctx, arrays=(), energy_dependent=(), **kw):
         w.set(nsf, b_c=br, b_c_complex=br - sp.I * bi, total=s,
               _number_density=I.getattr(el, "number_density"),
               is_energy_dependent=False)
-        if tag in energy_dependent:
-            from ptstat.symval import Vec
-            XP = Vec(sp.symbols(f"XP_{tag}_1:4", positive=True))
-            FP = Vec([sp.Symbol(f"FPr_{tag}_{k}", real=True) + sp.I * sp.Symbol(f"FPi_{tag}_{k}", real=True) for k in (1, 2, 3)])
-            w.set(nsf, nsf_table=(XP, FP), is_energy_dependent=True)
         w.set(base, neutron=nsf)
+    if energy_dependent:
+        _energy_tables(ctx, w, energy_dependent)
     return w
+
+
+ED_ENERGIES = (sp.Integer(1), sp.Integer(2), sp.Integer(4))      # eV, increasing like the package's tables
+
+
+def ed_rows(tag):
+    """the generated rows (energy eV, Re, Im, |a|) of the energy table of atom *tag*, in the package's order (increasing energy)"""
+    return [(e, sp.Symbol(f"FPr_{tag}_{k + 1}", real=True), sp.Symbol(f"FPi_{tag}_{k + 1}", real=True), sp.Integer(0))
+            for k, e in enumerate(ED_ENERGIES)]
+
+
+def _energy_tables(ctx, w, tags):
+    """Energy-dependent records are produced by the package's own energy_dependent_init from a generated table (concrete,
+    increasing energies; symbolic scattering lengths), so that whatever the code stores for the lookup is what its readers
+    expect - the rules never look at the stored representation."""
+    from ptstat import AnalysisError
+    from ptstat.symval import SymRaise
+    I = w.I
+    NCls = I.get_class("nsf.Neutron")
+    gen = {}
+    for tag in tags:
+        atom = w.atoms[tag]
+        if "isotope" in I.heap[atom.id] and I.hasattr(atom, "element") and not tag.startswith("ion"):
+            key = (I.getattr(I.getattr(atom, "element"), "symbol"), I.getattr(atom, "isotope"))
+        else:
+            key = (I.getattr(atom, "symbol"), None)
+        gen[key] = ed_rows(tag)
+        w.set(I.heap[atom.id]["neutron"], is_energy_dependent=True)
+    # the initialiser also mixes natural Lu from Lu-175 and Lu-176 (the real tables always hold Lu-176)
+    lu = {}
+    for A_ in (175, 176, None):
+        a = w.element("Lu") if A_ is None else w.isotope("Lu", A_)
+        if A_ is None:
+            w.give_mass_density(a, "Lu")
+        else:
+            w.give_iso_mass(a, f"Lu{A_}")
+        if "neutron" not in I.heap[a.id]:
+            rec = I.instantiate(NCls, [], {}, name=f"nsf_Lu{A_ or ''}")
+            w.set(rec, b_c=sp.Symbol(f"br_Lu{A_ or ''}", real=True),
+                  b_c_complex=sp.Symbol(f"br_Lu{A_ or ''}", real=True) - sp.I * sp.Symbol(f"bi_Lu{A_ or ''}", nonnegative=True),
+                  total=sp.Symbol(f"s_Lu{A_ or ''}", positive=True), is_energy_dependent=A_ != 175)
+            w.set(a, neutron=rec)
+    gen.setdefault(("Lu", sp.Integer(176)), ed_rows("Lu176"))
+    I.symconst["nsf_tables.ENERGY_DEPENDENT_TABLES"] = gen
+    I.module_cache.pop(("nsf_tables", "ENERGY_DEPENDENT_TABLES"), None)
+    try:
+        I.call(I.global_name("nsf", "energy_dependent_init"), [w.table], {})
+    except SymRaise as exc:
+        raise AnalysisError(f"nsf.energy_dependent_init on a generated three-row table raises {exc}")
 
 
 def kernel(ctx):
